@@ -17,13 +17,13 @@ LEVEL_TEXT = ('each point performs a real put -> history -> restore round trip; 
               'snapshot(after restore) incl. modes and mtimes, exactly that pair gone from the trash and nothing else changed')
 LEVEL_NOTE = 'trusted: CPython/shutil, tmpfs, shim mount rules; names limited to the alphabet (non-UTF-8 names are C16 territory)'
 RULE = ('names (24, incl. spaces, newlines, %, leading -, non-ASCII, 255 bytes) x kinds (6) x layout (home, .Trash/uid, .Trash-uid, '
-        '--trash-dir) x sort (date,path,none) x scope (cwd=dir, cwd=ancestor, cwd=/, explicit path) x history (6); quick tier '
+        '--trash-dir, .Trash-uid next to insecure .Trash/uid directories on two volumes, .Trash-uid being a symbolic link) x sort (date,path,none) x scope (cwd=dir, cwd=ancestor, cwd=/, explicit path) x history (6); quick tier '
         'restricts names to 8 (incl. trailing blank / tab / newline inside / %XX / leading dash / non-ASCII / 255 bytes), scopes to 2 and histories to 3; non-trivial = listing printed and index chosen; distinct = '
         'outcome class x all dimensions')
 NAMES = ['a.trashinfo.bak', 'a', 'a b', ' lead', 'trail ', 'a\nb', 'a\rb', 'tab\t', '%41', 'a%', '%', '-x', '--', 'é', '日本', '.hidden',
          'a.trashinfo', '*?[', '=', '#', '+', '&;', '"\'', '\\', 'L' * 255]
 QNAMES = ['a', 'trail ', 'a\nb', '%41', '-x', '日本', 'tab\t', 'L' * 255, 'a.trashinfo.bak', '.hidden']
-LAYOUTS = ['home', 'top-sticky', 'top-alt', 'trash-dir']
+LAYOUTS = ['home', 'top-sticky', 'top-alt', 'trash-dir', 'top-alt-insecure', 'top-alt-link']
 SORTS = ['date', 'path', 'none']
 SCOPES = ['dir', 'ancestor', 'root', 'path-arg']
 HISTS = ['none', 'same-second-twin', 'older-same-name', 'unrelated-after', 'parent-removed', 'other-restored-first', 'empty-1-between']
@@ -31,7 +31,7 @@ HISTS = ['none', 'same-second-twin', 'older-same-name', 'unrelated-after', 'pare
 
 def dimensions(tier):
     q = tier != 'thorough'
-    return {'name': len(QNAMES if q else NAMES), 'kind': 6, 'layout': 4, 'sort': 3,
+    return {'name': len(QNAMES if q else NAMES), 'kind': 6, 'layout': len(LAYOUTS), 'sort': 3,
             'scope': 2 if q else 4, 'history': 3 if q else 7}
 
 
@@ -49,9 +49,16 @@ def cases(tier):
 
 
 def run_case(c):
-    vol = c['lay'] in ('top-sticky', 'top-alt')
+    vol = c['lay'].startswith('top-')
     B = '/mnt/v1/data/w' if vol else '/home/u/data/w'
-    W = scen.base_world(mounts=['/', '/mnt/v1'], cwd=B)
+    W = scen.base_world(mounts=['/', '/mnt/v0', '/mnt/v1'] if c['lay'] == 'top-alt-insecure' else ['/', '/mnt/v1'], cwd=B)
+    if c['lay'] == 'top-alt-insecure':
+        # both the entry's volume and a volume listed before it have a .Trash that is not sticky but already contains a $uid directory:
+        # trash-put falls back to .Trash-uid, and trash-restore has to skip the insecure directories WITHOUT giving up on the rest
+        for v in ('/mnt/v0', '/mnt/v1'):
+            W.dir(v + '/.Trash', mode=0o777).dir(v + '/.Trash/0', mode=0o700).dir(v + '/.Trash/0/files', mode=0o700).dir(v + '/.Trash/0/info', mode=0o700)
+    if c['lay'] == 'top-alt-link':
+        W.dir('/mnt/v1/.Trash-0real', mode=0o700).link('/mnt/v1/.Trash-0', '.Trash-0real')
     W.dir(B, mode=0o751)
     n = c['name']
     E = B + '/' + n
